@@ -13,6 +13,8 @@ CONSTANTS
   Vers = {2, 4}
   MaxTokens = 2
   MaxBlobs = 1
+  MaxDraws = 2
+  MaxGen = 1
 INIT MCInit
 NEXT MCNext
 VIEW MCView
